@@ -81,7 +81,7 @@ func runAllGo(srcs []string, run *common.Run) []obs {
 			continue
 		}
 		for i := lo; i < hi; i++ {
-			res[i] = goObs(gr[i-lo])
+			res[i] = goObsTyped(gr[i-lo])
 		}
 	}
 	return res
@@ -151,7 +151,7 @@ func main() {
 		}
 	}
 	run := common.NewRun("C06")
-	run.Res.Rule = "cases = programs of the C06 mini-language (call tree of functions func(a int)(r int) over print / call / defer f(arg) / defer fmt.Println / defer delete / defers in loops / panic(value of 3 types) / 7 run-time fault kinds / recover / re-panic of the recovered value / named-result assignment), generated from a seeded grammar in four streams (dom: inside the proved domain; pending, repanic, wild: the two modelled divergence classes allowed; in every stream a call / defer argument may be the named result variable, which is assigned before and after), plus raw-source regressions of repaired findings (F06-1: every argument kind at the three defer sites), each rendered to Go source with callees as literals, named functions, value and pointer methods, run by yaegi in two driving styles (main run by Eval; definitions then Eval of a call) and compiled natively; non-trivial = contains at least one defer statement and one panic/fault; distinct = distinct protocol line"
+	run.Res.Rule = "cases = programs of the C06 mini-language (call tree of functions func(a int)(r int) over print / call / defer f(arg) / defer of a function literal held in a variable, a struct field or a slice / defer fmt.Println / defer delete / defer panic(v) / defers in loops / panic(value of 3 types) / 7 run-time fault kinds / recover / recovered value compared (==) or type-asserted (string, int, error) against a value / re-panic of the recovered value / named-result assignment), generated from a seeded grammar in three streams (dom: inside the proved domain; dpanic: the same with deferred callees that panic often — several per frame, nested, in loops; heldrec: a held literal may call recover() itself, the one modelled divergence class F06-7; in every stream deferred callees may panic with other deferred calls pending, and a call / defer argument may be the named result variable, which is assigned before and after), plus raw-source regressions of repaired findings (F06-1: every argument kind at the three defer sites; F07: panics in deferred calls; F06-3: type assertions, type switches, comparisons, errors.Is, re-panic chains on recovered values, and the dynamic type of interp.Panic.Value seen by the host; F06-4: defer panic(v); F06-2: literals held in variables / fields / slices / maps, deferred or called from deferred closures), each generated program rendered to Go source with callees as literals, named functions, value and pointer methods, run by yaegi in two driving styles (main run by Eval; definitions then Eval of a call) and compiled natively; the status of a run that ends in a panic carries the printed value and its dynamic type (yaegi: %T of interp.Panic.Value; model: the value's constructor; compiled Go: determined by the text, the generator's strings, errors and ints being textually disjoint); non-trivial = contains at least one defer statement and one panic/fault; distinct = distinct protocol line"
 	defer run.Finish()
 	drv, err := common.StartDriver("C06")
 	if err != nil {
@@ -234,6 +234,22 @@ func main() {
 					Finding: class, Note: "regression of a repaired finding: " + rg.ID})
 			}
 		}
+		// programs that end with an unrecovered panic: what the host finds in interp.Panic.Value
+		for _, rg := range hostRegressions {
+			im, rf := replaySrc(rg.Src)
+			run.Count("regression:"+rg.ID, true)
+			run.Hit("regression:" + rg.ID)
+			if strings.HasPrefix(rf.Status, "harness-error") || strings.HasPrefix(rf.Status, "cerr") {
+				run.Errorf("regression %s: the reference did not build: %s", rg.ID, rf.Status)
+				continue
+			}
+			if im.String() != rf.String() || im.HostType != rg.HostType {
+				class := "regression:" + rg.ID
+				run.Disagree(common.Disagreement{Kind: "impl-vs-ref", Input: replayT{Kind: "src", Src: rg.Src, Class: class},
+					Impl: im.String() + " Panic.Value:" + im.HostType, Ref: rf.String() + " Panic.Value:" + rg.HostType,
+					Finding: class, Note: "regression of a repaired finding: " + rg.ID})
+			}
+		}
 		n := 2400
 		if run.Thorough() {
 			n = 40000
@@ -241,12 +257,10 @@ func main() {
 		for i := 0; i < n; i++ {
 			stream := "dom"
 			switch i % 10 {
-			case 5, 6:
-				stream = "pending"
-			case 8:
-				stream = "repanic"
+			case 5, 6, 8:
+				stream = "dpanic"
 			case 9:
-				stream = "wild"
+				stream = "heldrec"
 			}
 			progs = append(progs, generateOne(run.Rng, stream))
 			streams = append(streams, stream)
@@ -308,6 +322,9 @@ func main() {
 		features(p.Top, "top", fs)
 		for k := range fs {
 			run.Hit("has:" + k)
+		}
+		if pd := panickingDefers(expand(p.Top)); pd > 0 {
+			run.Hit(fmt.Sprintf("panicking-defers-per-frame:%d", min(pd, 4)))
 		}
 		if i < 8 {
 			run.Sample(map[string]interface{}{"prog": p, "impl": im.String(), "model": ys, "spec": gs, "ref": rf.String()}, 8)
